@@ -174,7 +174,7 @@ def norm_line(s):
 
 
 # ---------------- comparison of a loaded map with a model map ---------------------------------
-def map_vs_model(y, pm):
+def map_vs_model(y, pm, rot_tol=1e-12):
     """differences between a CrystalMap and a PMap (JSON from the driver); [] when equal"""
     from orix.quaternion import Rotation
     diffs = []
@@ -199,7 +199,7 @@ def map_vs_model(y, pm):
         eu = np.deg2rad(eu)
     exp_q = Rotation.from_euler(eu).data
     got_q = y.rotations.data.reshape(n, -1)
-    if got_q.shape != exp_q.shape or np.abs(got_q - exp_q).max(initial=0.0) > 1e-12:
+    if got_q.shape != exp_q.shape or np.abs(got_q - exp_q).max(initial=0.0) > rot_tol:
         diffs.append("rotations differ from from_euler(model Euler angles)")
     names = [W.s_of(s) for s in pm["props"]]
     if list(y.prop.keys()) != names:
